@@ -49,7 +49,9 @@ class St:
 class Frame:
     def __init__(self, func, node, cls_ctx, globs, label):
         self.func, self.node, self.cls_ctx, self.globs, self.label = func, node, cls_ctx, globs, label
-        self.loopno = 0
+        # loop ordinal = position of the for statement among the loops of the function, in source order (independent of the path taken)
+        loops = sorted((n for n in ast.walk(node) if isinstance(n, (ast.For, ast.While))), key=lambda n: (n.lineno, n.col_offset)) if node is not None else []
+        self.loop_index = {id(n): k for k, n in enumerate(loops)}
 
 
 class Engine:
@@ -102,6 +104,8 @@ class Engine:
         return isinstance(x, (VStr, str)) or (is_sym(x) and x.sort() == Str)
 
     def truth(self, v):
+        if hasattr(v, "pyvc_truth"):
+            return v.pyvc_truth(self)
         if isinstance(v, bool):
             return z3.BoolVal(v)
         if v is None:
@@ -407,6 +411,8 @@ class Engine:
             return v.t
         if v is None and self.options.get("kinds"):
             return NONE_T
+        if self.options.get("opaque_elems") and not (is_sym(v) or isinstance(v, (int, bool))):
+            return fresh("elem", I)                # element whose content the contract does not speak about
         return S(v)
 
     def store_item(self, o, i, v, st):
@@ -551,8 +557,7 @@ class Engine:
         """for x in <symbolic list>: sidecar invariant keyed by (function label, loop ordinal).
         Three obligations: initially, preserved, and the exit state is `invariant ∧ cursor ≥ length`."""
         fr = self.frames[-1]
-        key = (fr.label, fr.loopno)
-        fr.loopno += 1
+        key = (fr.label, fr.loop_index.get(id(s), -1))
         spec = self.invariants.get(key)
         if spec is None:
             raise Unsupported("loop %s#%d needs an invariant" % key)
@@ -583,7 +588,7 @@ class Engine:
                     if kind2 in ("fall", "continue"):
                         self.obl.append(("%s#loop%d:preserved" % key, st3, inv(i + 1, st3)))
                     elif kind2 == "break":
-                        raise Unsupported("break in invariant loop")
+                        yield ("fall", None, st3)              # the loop is left with the state at the break
                     else:
                         yield (kind2, val2, st3)
         yield ("fall", None, head.assume(i >= lst.n))
@@ -613,7 +618,7 @@ class Engine:
                     if kind2 in ("fall", "continue"):
                         self.obl.append(("%s#loop%d:preserved" % key, st3, inv(i + 1, st3)))
                     elif kind2 == "break":
-                        raise Unsupported("break in invariant loop")
+                        yield ("fall", None, st3)              # the loop is left with the state at the break
                     else:
                         yield (kind2, val2, st3)
         yield ("fall", None, head.assume(i >= n_cur))
